@@ -42,3 +42,14 @@ Proof. vm_compute. reflexivity. Qed.
 Lemma flatten_choice_match :
   forallb (fun b => Bool.eqb (bop_has_choice b) (existsb (bop_eqb b) gen_flatten_choice_bops)) all_bops = true.
 Proof. vm_compute. reflexivity. Qed.
+
+(* fidget-bytecode: opcode numbering of the model = BytecodeOp tags of the source *)
+From Coq Require Import ZArith.
+From FV Require Import Bytecode.
+From FVGen Require Import BytecodeGen.
+Lemma bytecode_codes_match :
+  forallb (fun u => existsb (fun p => uop_eqb (fst p) u && Z.eqb (snd p) (bc_un u)) gen_bc_un) all_uops
+  && forallb (fun b => existsb (fun p => bop_eqb (fst p) b && Z.eqb (snd p) (bc_bin b)) gen_bc_bin) all_bops
+  && Z.eqb gen_bc_output bc_output && Z.eqb gen_bc_input bc_input && Z.eqb gen_bc_copyimm bc_copy
+  && Z.eqb gen_bc_load bc_mem && Z.eqb gen_bc_store bc_mem = true.
+Proof. vm_compute. reflexivity. Qed.
